@@ -23,6 +23,11 @@
 (*   "HbInitWallClock"  a heartbeat file that was never notify()ed carries *)
 (*        the wall-clock creation time while the scan uses the monotonic   *)
 (*        clock: a worker that never beat is never considered stale.       *)
+(*   "ReloadRetiresByCount"  reload() spawns cfg.workers new workers and    *)
+(*        then retires only the surplus by COUNT: when a new worker dies   *)
+(*        inside the spawn loop an old-generation worker survives the      *)
+(*        reload.  Intended design: every worker older than the reload is  *)
+(*        retired.                                                         *)
 (*   "HaltEscapes"      HaltServer raised by the handler while halt()/     *)
 (*        stop() is already running escapes run() (exit status 1, pid file *)
 (*        left behind).                                                    *)
@@ -106,8 +111,9 @@ Adv(s, lg) ==
   [] s.pc = "MWKill" ->                       \* workers = sorted(self.WORKERS.items(), key=age)
        Adv([s EXCEPT !.kl = Sorted(s.W), !.ks = "TERM", !.kctx = "mw", !.pc = "MWKillLoop"], lg)
   [] s.pc = "MWKillLoop" ->                   \* while len(workers) > self.num_workers: pop(0), kill TERM
-       IF Len(s.kl) > s.nw THEN [s EXCEPT !.pc = "Kill", !.kp = Head(s.kl), !.kl = Tail(s.kl)]
-       ELSE Adv([s EXCEPT !.pc = s.back, !.kl = <<>>], lg)
+       IF Len(s.kl) > s.nw \/ (s.gen /\ s.kl # <<>> /\ Head(s.kl) <= s.relAge)
+       THEN [s EXCEPT !.pc = "Kill", !.kp = Head(s.kl), !.kl = Tail(s.kl)]
+       ELSE Adv([s EXCEPT !.pc = s.back, !.kl = <<>>, !.gen = FALSE], lg)
   [] s.pc = "Murder" ->                       \* murder_workers(): workers = list(self.WORKERS.items())
        Adv([s EXCEPT !.kl = Sorted(s.W), !.kctx = "murder", !.pc = "MurderLoop"], lg)
   [] s.pc = "MurderLoop" ->
@@ -128,7 +134,7 @@ M0 == [pc |-> "MW", W |-> {}, ab |-> {}, nw |-> InitWorkers, sigq |-> <<>>, wake
        pend |-> 0, todo |-> 0, sctx |-> "mw", kl |-> <<>>, ks |-> "TERM", kctx |-> "mw", kp |-> 0,
        back |-> "Loop", lopen |-> TRUE, lctx |-> "stop", chg |-> 0, stopping |-> FALSE,
        graceful |-> TRUE, rem |-> 0, el |-> 0, after |-> "unlink", xstat |-> 0, inhalt |-> FALSE,
-       pidf |-> TRUE, relAge |-> 0, cause |-> "none"]
+       pidf |-> TRUE, relAge |-> 0, cause |-> "none", gen |-> FALSE]
 
 Init ==
   /\ st = [p \in Pid |-> "none"] /\ xs = [p \in Pid |-> "ok"] /\ got = [p \in Pid |-> {}]
@@ -152,7 +158,8 @@ Assign ==                                     \* self.WORKERS[pid] = worker
   /\ LET s == [m EXCEPT !.W = @ \cup {m.pend}, !.pend = 0] IN
      m' = IF s.sctx = "mw" THEN [s EXCEPT !.pc = "Nap"]
           ELSE IF s.todo > 1 THEN [s EXCEPT !.todo = @ - 1, !.pc = "Fork"]
-          ELSE Adv([s EXCEPT !.todo = 0, !.pc = "MW", !.back = "SigDone"], lag)
+          ELSE Adv([s EXCEPT !.todo = 0, !.pc = "MW", !.back = "SigDone",
+                             !.gen = "ReloadRetiresByCount" \notin Dev], lag)
   /\ UNCHANGED <<kvars, faults, hangs, nsig, boot>>
 
 Nap ==                                        \* time.sleep(0.1 * random.random())
@@ -291,6 +298,8 @@ Next == Master \/ Chld \/ Env
 Spec == /\ Init /\ [][Next]_vars
         /\ WF_vars(Master) /\ WF_vars(Chld)
         /\ \A p \in Pid : WF_vars(ExitOnSig(p)) /\ WF_vars(Beat(p))
+SpecAuto == /\ Init /\ [][Next]_vars           \* AutoBeat = TRUE: no Beat actions, fewer fairness conditions
+            /\ WF_vars(Master) /\ WF_vars(Chld) /\ \A p \in Pid : WF_vars(ExitOnSig(p))
 
 LevelBound == TLCGet("level") <= 400
 
